@@ -179,6 +179,24 @@ BUILT = {
              "documentation does not determine is marked unspec and accepted. drop with a predicate on streams is "
              "excluded (hang, C14). Known finding: partition returns lists for string/vector/bytes input.",
         technique="TLA+ executable reference (SeqLib.tla) + TLC enumeration with replay + TLC trace validation"),
+    "C02": dict(
+        cat="model_checking", design="DESIGN.md §4 C02",
+        text="Oracle: spec/Cow.tla, the reference-counted copy-on-write protocol as a cost model: strong counts are "
+             "derived from variables, heap slots and evaluator temporaries, MakeMut copies iff the count exceeds 1, "
+             "operator-assignment drops the left-hand side before the operator runs; `copied` is the specification's "
+             "prediction of the element slots a statement copies. TLC explores every workload of <=5 (quick) / 6 "
+             "(thorough) statements (flat and nested collections, aliasing, x[i]=v, m[i][j]=v, x op= v, pop) with "
+             "InPlaceWhenUnique, CopyBounded, RepeatIsFree and RcSane as invariants (the model without the LHS drop "
+             "violates them - kept as negative control); every mutation transition is replayed at N = 4000 and the "
+             "bytes the interpreter requests from the allocator while the statement runs must stay below "
+             "4 * element_bytes * copied + slack (growing statements are repeated 50 times and judged on the total). "
+             "Trace validation: random workloads of 40-200 statements at sizes 2000..80000 over lists, dicts, "
+             "vectors, bytes and nested rows are checked per statement and against a per-workload amortised budget.",
+        note="Allocation in bytes requested, never time; one-sided. Element sizes per kind (list 48, dict 128, vector "
+             "32, bytes 1) are constants of the build's data layout logged with each event. Struct fields and `remove` "
+             "at the end are not in the vocabulary. Trusted: TLC, the counting allocator of the harness.",
+        technique="TLA+ refcount/COW protocol model (Cow) + TLC bounded model checking with replay under a counting "
+                  "allocator + TLC trace validation of random workloads"),
 }
 PENDING = "check not built yet in this round (planned, see DESIGN.md section 4 and 9)"
 ALL = ["C%02d" % i for i in range(1, 18)]
